@@ -9,7 +9,7 @@ Run == ndJsonDeserialize(IOEnv.CASES)[1]      \* one recorded run: [fixed, flagD
 N == Len(Run.events)
 VARIABLES s, used, order
 vars == <<s, used, order>>
-Init == s = Init0(Run.fixed, Run.flagDeps) /\ used = {} /\ order = <<>>
+Init == s = Init1(Run.fixed, Run.flagDeps, Run.fd) /\ used = {} /\ order = <<>>
 Take(i) == /\ i \notin used /\ ~IsFailed(s)
            /\ LET t == Step(s, Run.events[i]) IN
               /\ ~IsFailed(t)
